@@ -33,13 +33,16 @@ def configs(tier):
         dict(Remotes={1, 2}, KindOf="KindV", Keys={1}, MaxPush=2, MaxSpecial=2),
         dict(Remotes={1}, KindOf="KindM", Keys={1, 2}, MaxPush=3, MaxSpecial=2),
         dict(Remotes={1}, KindOf="KindS", Keys={1}, MaxPush=4, MaxSpecial=3),
-        dict(Remotes={1}, KindOf="KindVS", Keys={1}, MaxPush=3, MaxSpecial=2),
-        dict(Remotes={1}, KindOf="KindVM", Keys={1}, MaxPush=3, MaxSpecial=2),
+        dict(Remotes={1}, KindOf="KindVS", Keys={1}, MaxPush=2, MaxSpecial=2),
+        dict(Remotes={1}, KindOf="KindVM", Keys={1}, MaxPush=2, MaxSpecial=2),
         dict(Remotes={1, 2}, KindOf="KindS", Keys={1}, MaxPush=2, MaxSpecial=2),
         dict(Remotes={1, 2}, KindOf="KindM", Keys={1}, MaxPush=2, MaxSpecial=2),
         # model checking only (the state graph is too large to dump and replay edge by edge)
         dict(Remotes={1, 2}, KindOf="KindV", Keys={1}, MaxPush=3, MaxSpecial=3, b3_only=True),
         dict(Remotes={1, 2}, KindOf="KindS", Keys={1}, MaxPush=3, MaxSpecial=2, b3_only=True),
+        # (their state graphs have 0.7 M / 1.5 M edges: dumping and replaying them needed 25 GB)
+        dict(Remotes={1}, KindOf="KindVS", Keys={1}, MaxPush=3, MaxSpecial=2, b3_only=True),
+        dict(Remotes={1}, KindOf="KindVM", Keys={1}, MaxPush=3, MaxSpecial=2, b3_only=True),
     ]
 
 
